@@ -341,7 +341,7 @@ def coq_crosscheck(model, seed, n=24):
     rng = random.Random(97 * seed + 11)
     lines = ["From Coq Require Import ZArith QArith Qcanon List.",
              "From GB Require Import Base.Field Extract.Sx Extract.RunEval.", "Import ListNotations.",
-             "Definition K0 := QcK (qc_of 0 1) (fun x => x) (fun x => x) (fun x => x) (fun _ x => x).",
+             "Definition K0 := QcK false (qc_of 0 1) (fun x => x) (fun x => x) (fun x => x) (fun _ x => x).",
              "Definition q (n : Z) (d : positive) := SQ n d."]
     checks = []
     for i in range(n):
